@@ -1,4 +1,5 @@
 # C11 - EQU names are transparent abbreviations.
+import json
 import random
 
 import progs
@@ -31,6 +32,87 @@ def run(ctx):
                     continue
                 vid = R.add(v)
                 R.rel("eq", ["C11"], a=bid, b=vid)
+    # EQU-rich programs: definition chains (in dependency order and in reverse), every name used several times, alone and
+    # inside arithmetic, in every position; the twin program has every name replaced by its parenthesised definition
+    uses = variants.gen(ctx, "equuse")
+    for pi in range(40 if quick else 600):
+        bits = 16
+        vals = [rng.choice([2, 3, 10, 18, 512]), rng.choice([2, 4, 18]), rng.choice([1, 2, 5]), rng.choice([1, 3])]
+        defs = [("Q0", {"o": "n", "v": vals[0]}),
+                ("Q1", {"o": "*", "a": {"o": "id", "nm": "Q0"}, "b": {"o": "n", "v": vals[1]}}),
+                ("Q2", {"o": "+", "a": {"o": "id", "nm": "Q1"}, "b": {"o": "n", "v": vals[2]}}),
+                ("Q3", {"o": "/", "a": {"o": "par", "a": {"o": "-", "a": {"o": "id", "nm": "Q2"}, "b": {"o": "n", "v": vals[3]}}}, "b": {"o": "n", "v": 2}})]
+        body = dict(defs)
+
+        def inline(e):
+            if e["o"] == "id" and e["nm"] in body:
+                return {"o": "par", "a": inline(body[e["nm"]])}
+            r = dict(e)
+            for f in ("a", "b"):
+                if f in r:
+                    r[f] = inline(r[f])
+            return r
+
+        def use_expr(cell):
+            q = {"o": "id", "nm": "Q%d" % cell["name"]}
+            r_ = {"o": "id", "nm": "Q%d" % ((cell["name"] + 1) % 4)}
+            k = {"o": "n", "v": rng.choice([1, 2, 3])}
+            f = cell["form"]
+            B = lambda o, a, b: {"o": o, "a": a, "b": b}
+            return {"Q": q, "Q*k": B("*", q, k), "k*Q": B("*", k, q), "Q+k": B("+", q, k), "k+Q": B("+", k, q), "Q-k": B("-", q, k),
+                    "(Q)*k": B("*", {"o": "par", "a": q}, k), "Q/k": B("/", q, k), "Q%k": B("%", q, k), "Q*R": B("*", q, r_), "Q+R": B("+", q, r_),
+                    "-Q+k": B("+", {"o": "neg", "a": {"o": "par", "a": q}} if False else B("-", {"o": "n", "v": 0}, q), k),
+                    "(Q+k)*k": B("*", {"o": "par", "a": B("+", q, k)}, k)}[f]
+
+        def stmt_for(cell, e, extra):
+            p_ = cell["pos"]
+            if p_ == "imm16":
+                return [{"k": "ins", "mn": "MOV", "ops": [{"t": "r", "w": 16, "n": rng.choice([0, 1, 3])}, {"t": "e", "e": e}]}]
+            if p_ == "imm8":
+                return [{"k": "ins", "mn": "MOV", "ops": [{"t": "r", "w": 8, "n": rng.choice([0, 1, 5])}, {"t": "e", "e": {"o": "%", "a": {"o": "par", "a": e}, "b": {"o": "n", "v": 100}}}]}]
+            if p_ in ("db", "dw", "dd"):
+                return [{"k": "data", "mn": p_.upper(), "items": [{"t": "e", "e": e}]}]
+            if p_ == "resb":
+                return [{"k": "resb", "e": {"o": "%", "a": {"o": "par", "a": e}, "b": {"o": "n", "v": 50}}}]
+            if p_ == "disp":
+                return [{"k": "ins", "mn": "MOV", "ops": [{"t": "r", "w": 16, "n": 0}, {"t": "m", "w": 0, "aw": 16, "b": 3, "x": -1, "sc": 1, "d": 0, "dx": e}]}]
+            nm = "X%d" % extra
+            body[nm] = e
+            return [{"k": "equ", "nm": nm, "e": e}, {"k": "data", "mn": "DW", "items": [{"t": "e", "e": {"o": "id", "nm": nm}}]}]
+        st = [{"k": "org", "v": 0x7c00}]
+        order = list(defs)
+        if pi % 4 == 3:
+            order.reverse()      # derived names written BEFORE the names they depend on (all still before the first use)
+        st += [{"k": "equ", "nm": n, "e": e} for n, e in order]
+        cells_p = [rng.choice(uses) for _ in range(8)]
+        for ci, cell in enumerate(cells_p):
+            st += stmt_for(cell, use_expr(cell), ci)
+        for n, _e in defs:          # every name once more, plainly, after all the arithmetic uses
+            st.append({"k": "data", "mn": "DW", "items": [{"t": "e", "e": {"o": "id", "nm": n}}]})
+        st.append({"k": "label", "nm": "fin"})
+
+        def inl_stmt(s_):
+            s2 = json.loads(json.dumps(s_))
+            if s2["k"] == "equ":
+                return None
+            if s2["k"] == "data":
+                for it in s2["items"]:
+                    if it["t"] == "e":
+                        it["e"] = inline(it["e"])
+            if s2["k"] == "resb":
+                s2["e"] = inline(s2["e"])
+            if s2["k"] == "ins":
+                for o in s2["ops"]:
+                    if o["t"] == "e":
+                        o["e"] = inline(o["e"])
+                    if o["t"] == "m" and "dx" in o:
+                        o["dx"] = inline(o["dx"])
+            return s2
+        twin = [x for x in (inl_stmt(s_) for s_ in st) if x is not None]
+        a = R.add(st)
+        b = R.add(twin)
+        R.rel("eq", ["C11"], a=b, b=a)
+        nb += 1
     R.run()
     return relcheck.finish(ctx, "C11", R, None,
                            "seeded random programs x EQU abstractions enumerated by TLC (Gen_Variants.tla 'equ': every subset of <= 4 of the first 6 literal sites - immediates, data items, RESB counts, displacements - x chain depth 1..4 x body style direct/parenthesised/with its own arithmetic); "
